@@ -266,6 +266,22 @@ func genCases(thorough bool) []Case {
 			add("many-kernels", shape)
 		}
 	}
+	// ---- staggered kernels: the driver hands out one kernel per cycle, so one-warp kernels of n, n-1, n-2 ...
+	// instructions on different devices finish in the same cycle and their "kernel finished" reports sit in the
+	// driver's port together; every pair over 0..5 instructions and every triple over 0..3 (seed C20-6: a report
+	// queued behind the one just read never woke the driver again)
+	for a := 0; a <= 5; a++ {
+		for c := 0; c <= 5; c++ {
+			add("staggered-kernels", [][][]int{{{a}}, {{c}}})
+		}
+	}
+	for a := 0; a <= 3; a++ {
+		for c := 0; c <= 3; c++ {
+			for e := 0; e <= 3; e++ {
+				add("staggered-kernels", [][][]int{{{a}}, {{c}}, {{e}}})
+			}
+		}
+	}
 	// ---- wide blocks: more warps per block than a 4-entry port buffer / than sub-cores
 	for _, k := range []int{1, 2} {
 		for _, nb := range []int{1, 2} {
